@@ -1,2 +1,179 @@
-From Coq Require Import List.
-Theorem placeholder_c14 : True. Proof. exact I. Qed.
+(* C14 (TRANSFAC part) -- well-formed files load completely and exactly under any chunking.
+
+   Only theorem statements here; proofs are in StreamProofs / ReaderProofs / RoundTrip /
+   CheckProofs. *)
+From Coq Require Import List Bool Arith.
+From Coq Require Import Init.Byte.
+From LMBase Require Import Res.
+From LMTransfac Require Import Bytes Stream Nom TransfacParse TransfacReader TransfacPrint Checkers.
+From LMTransfac Require Import StreamProofs NomProofs ParseProofs ParseRoundTrip CellProofs ReaderProofs CheckProofs
+  ReaderRoundTrip.
+Import ListNotations.
+
+(* ---- the "schedules" quantifier: all chunkings of the same bytes ---- *)
+
+(* std's read_until(b'\n') over fill_buf/consume: the bytes appended and the bytes left in
+   the stream depend on the concatenation of the chunks only. *)
+Theorem read_until_chunk_independent : forall (s1 s2 : stream) (acc : str),
+  concat s1 = concat s2 ->
+  fst (read_until_nl s1 acc) = fst (read_until_nl s2 acc) /\
+  concat (snd (read_until_nl s1 acc)) = concat (snd (read_until_nl s2 acc)).
+Proof.
+  intros s1 s2 acc H.
+  destruct (read_until_nl_spec s1 acc) as [A1 A2], (read_until_nl_spec s2 acc) as [B1 B2].
+  rewrite A1, A2, B1, B2, H. split; reflexivity.
+Qed.
+
+(* read_line (read_until + UTF-8 validation): same result, same String, same bytes left. *)
+Theorem read_line_chunk_independent : forall (s1 s2 : stream) (buf : str),
+  concat s1 = concat s2 ->
+  fst (read_line s1 buf) = fst (read_line s2 buf) /\
+  concat (snd (read_line s1 buf)) = concat (snd (read_line s2 buf)).
+Proof. exact read_line_chunk_independent_lemma. Qed.
+
+(* and in terms of the flat byte string: the first line, validated *)
+Theorem read_line_is_first_line : forall (s : stream) (buf : str),
+  fst (fst (read_line s buf)) = fst (fst (read_line_flat (concat s) buf)) /\
+  snd (fst (read_line s buf)) = snd (fst (read_line_flat (concat s) buf)) /\
+  concat (snd (read_line s buf)) = snd (read_line_flat (concat s) buf).
+Proof. exact read_line_spec. Qed.
+
+(* The whole run of the reader -- Reader::new, then next() until the first error or the end
+   of input -- returns the same outcome list for every chunking of the same bytes, whatever
+   the record parser (induction on the loops; every state is compared up to the bytes of
+   its stream). *)
+Theorem reader_chunk_independent : forall (parse : parser record) (s1 s2 : stream),
+  concat s1 = concat s2 -> run_reader parse s1 = run_reader parse s2.
+Proof. exact run_reader_same. Qed.
+
+Corollary reader_any_chunking : forall (al : alpha) (bytes : str) (s : stream),
+  concat s = bytes ->
+  run_reader (parse_record_fixed al) s = run_reader (parse_record_fixed al) [bytes].
+Proof. intros al bytes s H. apply run_reader_same. simpl. rewrite app_nil_r. exact H. Qed.
+
+(* ---- round trip ---- *)
+
+(* The record parser on the text of one printed record: exactly the expected record, the
+   whole text consumed ([term] = the line ending after "//", or nothing at the end of the
+   file). *)
+Theorem parser_roundtrip : forall (al : alpha) (crlf : bool) (p : prec) (term : str),
+  prec_ok al p = true -> term = eol_of crlf \/ term = [] ->
+  parse_record_fixed al (print_record (eol_of crlf) term p) = POk (expected_record al p) [].
+Proof. exact parse_record_fixed_printed. Qed.
+
+(* For all record lists meeting the boolean well-formedness condition wf_file (any number of
+   records, any widths; optional VV header; LF or CRLF; final newline or not) and ALL
+   chunkings of the printed bytes: the reader returns exactly those records, in order, then
+   signals the end of input. *)
+Theorem reader_roundtrip :
+  forall (al : alpha) (vv : option str) (crlf fnl : bool) (rs : list prec) (s : stream),
+  wf_file al vv rs = true ->
+  concat s = print_file vv crlf fnl rs ->
+  run_reader (parse_record_fixed al) s = Ok (map (fun r => ORec (expected_record al r)) rs ++ [OEnd]).
+Proof. exact reader_roundtrip_lemma. Qed.
+
+(* What "expected" means for the matrix: the count written in row i under the j-th symbol of
+   the P0 line is the cell of row i in the column of that symbol (sym_index = as_index),
+   every row has K columns and every column not named on the P0 line holds zero. *)
+Theorem expected_cells :
+  forall (al : alpha) (p : prec) (idx : list nat),
+  prec_ok al p = true -> p_syms p <> [] -> sym_indices al (p_syms p) = Some idx ->
+  exists m, r_data (expected_record al p) = Some m /\ length m = length (p_rows p) /\
+  forall i, i < length (p_rows p) ->
+    let row := nth i m [] in
+    let toks := pr_toks (nth i (p_rows p) (mkRow [] [] [])) in
+    length row = alpha_k al /\
+    (forall j, j < length (p_syms p) ->
+       sym_index al (nth j (p_syms p) x00) = Some (nth j idx 0) /\
+       nth (nth j idx 0) row CZero = CTok (nth j toks [])) /\
+    (forall k, ~ In k idx -> nth k row CZero = CZero).
+Proof.
+  intros al p idx Hp Hne Hs. unfold expected_record. cbn [r_data]. rewrite Hs.
+  destruct (p_syms p) as [|c cs] eqn:Esy; [congruence|].
+  exists (build_matrix al idx (map pr_toks (p_rows p))). split; [reflexivity|].
+  unfold build_matrix. rewrite !map_length. split; [reflexivity|].
+  intros i Hi. cbv zeta.
+  assert (Hrow : nth i (map (build_row al idx) (map pr_toks (p_rows p))) [] =
+                 build_row al idx (pr_toks (nth i (p_rows p) (mkRow [] [] [])))).
+  { rewrite map_map. rewrite nth_indep with (d' := build_row al idx (pr_toks (mkRow [] [] [])));
+      [|rewrite map_length; exact Hi].
+    apply (map_nth (fun x => build_row al idx (pr_toks x))). }
+  rewrite Hrow. rewrite <- Esy in *.
+  unfold prec_ok in Hp. rewrite Esy in Hp. rewrite <- Esy in Hp.
+  apply andb_true_iff in Hp. destruct Hp as [_ Hp].
+  apply andb_true_iff in Hp. destruct Hp as [Hp Hrows].
+  apply andb_true_iff in Hp. destruct Hp as [Hp _].
+  apply andb_true_iff in Hp. destruct Hp as [Hp _].
+  apply andb_true_iff in Hp. destruct Hp as [_ Hnd].
+  assert (Hr : row_ok (length (p_syms p)) (nth i (p_rows p) (mkRow [] [] [])) = true).
+  { rewrite forallb_forall in Hrows. apply Hrows, nth_In, Hi. }
+  unfold row_ok in Hr. apply andb_true_iff in Hr. destruct Hr as [Hr _].
+  apply andb_true_iff in Hr. destruct Hr as [Hr _].
+  apply andb_true_iff in Hr. destruct Hr as [_ Hlen]. apply Nat.eqb_eq in Hlen.
+  exact (build_row_spec al (p_syms p) idx _ Hs Hnd Hlen).
+Qed.
+
+(* ---- the extracted checker used by the driver ---- *)
+
+Theorem check_c14_sound : forall (expected : list record) (o : list obs),
+  check_c14 expected o = true ->
+  o = map (fun r => BRec (observe_record r)) expected ++ [BEnd].
+Proof. exact CheckProofs.check_c14_sound. Qed.
+
+(* The property theorem in executable form: on every chunking of every well-formed printed
+   file the model's observation passes the checker against the written records. *)
+Theorem model_passes_c14 :
+  forall (al : alpha) (vv : option str) (crlf fnl : bool) (rs : list prec) (s : stream),
+  wf_file al vv rs = true -> concat s = print_file vv crlf fnl rs ->
+  check_c14 (map (expected_record al) rs) (observe_run (run_reader (parse_record_fixed al) s)) = true.
+Proof.
+  intros al vv crlf fnl rs s Hw Hs. rewrite (reader_roundtrip_lemma al vv crlf fnl rs s Hw Hs).
+  cbn [observe_run]. unfold expected. rewrite map_app, !map_map. cbn [map observe].
+  rewrite <- (map_map (expected_record al) (fun r => BRec (observe_record r))).
+  apply check_c14_complete.
+Qed.
+
+Check reader_roundtrip : forall al vv crlf fnl rs s,
+  wf_file al vv rs = true -> concat s = print_file vv crlf fnl rs ->
+  run_reader (parse_record_fixed al) s = Ok (map (fun r => ORec (expected_record al r)) rs ++ [OEnd]).
+Check reader_chunk_independent : forall parse s1 s2,
+  concat s1 = concat s2 -> run_reader parse s1 = run_reader parse s2.
+
+(* non-vacuity: two different chunkings of a file with two lines *)
+Example ex_chunkings :
+  let a := ["/"; "/"; x0a; "I"]%byte in let b := ["D"; x0a]%byte in
+  concat [a; b] = concat [["/"]%byte; ["/"; x0a; "I"; "D"]%byte; [x0a]] /\
+  run_reader (parse_record_fixed Dna) [a; b] = Ok [ORec (empty_record); OErr ENom].
+Proof. split; vm_compute; reflexivity. Qed.
+
+(* non-vacuity of the round trip: a well-formed file with a VV header, two records (one with
+   a matrix whose header is spelled PO, names the symbols in the order T A G, separates the
+   columns with blank+tab and has a consensus letter after the first row), CRLF, no final
+   newline *)
+Local Open Scope byte_scope.
+Definition ex_recs : list prec :=
+  [ mkPrec (Some ["M";"1"]) None (Some ["n";" ";"1"]) None true [" "; x09] ["T";"A";"G"]
+      [ mkRow ["0";"1"] [["1"]; ["2";".";"5"]; ["0"]] [" ";" ";"W"];
+        mkRow ["0";"2"] [["7"]; ["1";"e";"2"]; ["3"]] [] ];
+    mkPrec None (Some ["a";"c"]) None (Some ["d"]) false [] [] [] ].
+
+Example ex_wf : wf_file Dna (Some ["v";"1"]) ex_recs = true.
+Proof. vm_compute. reflexivity. Qed.
+
+Example ex_roundtrip_instance :
+  exists r1 r2,
+    run_reader (parse_record_fixed Dna) [print_file (Some ["v";"1"]) true false ex_recs]
+      = Ok [ORec r1; ORec r2; OEnd] /\
+    r_data r1 = Some [[CTok ["2";".";"5"]; CZero; CTok ["1"]; CTok ["0"]; CZero];
+                      [CTok ["1";"e";"2"]; CZero; CTok ["7"]; CTok ["3"]; CZero]] /\
+    r_id r1 = Some ["M";"1"] /\ r_ac r2 = Some ["a";"c"] /\ r_data r2 = None.
+Proof. eexists _, _. vm_compute. repeat split. Qed.
+
+(* counts: everything nom's float parser accepts entirely is a well-formed count token *)
+Example ex_tokens :
+  map token_ok [["1";"2"]; ["2";".";"5"]; ["5";"."]; [".";"5"]; ["1";"e";"5"]; ["1";"E";"-";"3"]; ["+";"3"];
+                ["-";"0"]; ["n";"a";"n"]; ["I";"N";"F"]]
+  = repeat true 10 /\
+  map token_ok [[]; ["1";"e"]; ["i";"n";"f";"i";"n";"i";"t";"y"]; ["1";" ";"2"]; ["x"]; [" ";"1"]; ["-";"i";"n";"f"]]
+  = repeat false 7.
+Proof. split; vm_compute; reflexivity. Qed.
